@@ -77,6 +77,15 @@ def values_model(chk):
                        "%s updates %s with %s" % (o["fn"], ctr, " then ".join(a[0] for a in acc)),
                        "every access is atomic (no data race in the C++ sense, ThreadSanitizer silent) but the update is not: two threads copy-constructing from one "
                        "shared object lose an increment (C18_split_increment_refuted exhibits the interleaving), the count reaches 0 while the tables are in use")
+    # documented process-wide configuration must be ONE object per process: a storage-class change (thread_local / __thread) of a static
+    # that a documented setter writes makes the main thread's setting invisible to the workers
+    tls = cv.tls_offenders(res)
+    if tls:
+        chk.broke("documented process-wide state is no longer shared: %s declared thread_local (VarDecl tls kind in the clang AST): a mode / module / domain / seed "
+                  "set by the main thread through the documented setter is not seen by worker threads, which then compute other results than the sequential run"
+                  % ", ".join(tls), json.dumps(res["meta"].get("thread_local_variables")))
+    chk.cov["process_wide_configuration"] = {"statics_written_by_documented_setters": cv.process_wide_statics(),
+                                             "thread_local_variables_in_the_library": res["meta"].get("thread_local_variables"), "of_which_documented_process_wide": tls}
     chk.cov["atomic_counter_accesses"] = {o["uid"]: {"operations": [a[0] + ":" + a[1] for a in o["atomic"]["accesses"]], "fresh_object": o["atomic"]["fresh_object"]}
                                           for o in cv.atomic_sites(res)}
     m = res["meta"]
@@ -382,6 +391,10 @@ def thread_requests(tier):
         reqs.append("Mixed<values> %d 4 %d\n" % (P, mi))
     reqs.append("MixedRotate<values> 0 9 %d\n" % (2 * mi))
     reqs.append("MixedRotate<values> 4 5 %d\n" % (2 * mi))
+    # process-wide configuration the threads must SEE: the documented setter is called in the main thread before the workers start
+    for what in ("flags", "rmint", "domain", "seed-integer", "seed-recint"):
+        for P in (0, 1):
+            reqs.append("Config:%s %d %d %d\n" % (what, P, 1 if what.startswith("seed") else 4, 3 if tier == "quick" else 20))
     # copy storm: T threads make K LIVE copies each of one shared const object, then destroy them concurrently; exact sharer count of the
     # reference-counted classes after each phase, the shared object must still work
     for c in THREAD_CLASSES:
@@ -406,6 +419,8 @@ def report_thread_line(chk, r, line, second=None):
     kind = "crash" if " X " in line else "diff"
     fam = re.search(r"what=(\S+)", line)
     klass = kind + (":" + fam.group(1) if (t[0] in MIXED and fam) else "")
+    if t[0].startswith("Config:") and fam:
+        klass = kind + ":" + fam.group(1)
     if t[0].startswith("CopyStorm:") and fam:
         klass = kind + ":" + fam.group(1).split(":")[0]          # count-live / count-end / digest-...
     chk.fail_input("threads:%s" % t[0], klass, {"class": t[0], "param": int(t[1]), "threads": int(t[2]), "iterations": int(t[3])},
@@ -521,6 +536,8 @@ def run_threads(chk, tier, res, builder):
     reqs.append("MixedRotate<values> 0 3 %d\n" % (9 if tier == "quick" else 18))
     for c in REFCOUNTED:
         reqs.append("CopyStorm:%s 2 4 %d\n" % (c, 300 if tier == "quick" else 2000))
+    for what in ("flags", "rmint", "domain"):
+        reqs.append("Config:%s 1 3 1\n" % what)
     env = {"TSAN_OPTIONS": "halt_on_error=0 exitcode=0 report_signal_unsafe=0 history_size=4", "C18_ALARM": "1500", "C18_CPU": "1500"}
     out, err, probs = run_requests(tb, reqs, jobs=5, timeout=2400, env=env)
     for pb in probs:
@@ -623,7 +640,8 @@ def main(tier, replay=None):
                        "(constructors from every native type incl. +-0 / denormal / huge doubles, arithmetic, comparisons, I/O to private streams, "
                        "conversions), thread t runs family (t+offset) mod 9: all 9 at once, 18 threads, every pair of neighbours, quadruples, rotation; "
                        "every digest against the family's sequential digest, all families once more after the threads ended; CopyStorm:<class>: T threads make K live "
-                       "copies each of one shared const object and destroy them concurrently, exact sharer count of Modular<Log16> and the domains over it "
+                       "copies each of one shared const object and destroy them concurrently; Config:<flags|rmint|domain|seed-integer|seed-recint>: the documented process-wide "
+                       "setter is called in the main thread before 4 workers (1 for seeds) start, every worker must give the main thread's digest; CopyStorm counts: exact sharer count of Modular<Log16> and the domains over it "
                        "(K = 20000 / 5000 / 2000; 2, 8, 16 threads) after each phase, every other class 6 x 100 copies; plus a ThreadSanitizer "
                        "build (harness + instrumented library) of the same scenarios; a difference must reproduce in a second run; every run is "
                        "non-trivial (>= 2 threads); distinct = (class, parameter set, threads, iterations)")
